@@ -33,10 +33,10 @@ def tree_with(lay, f, got, upto=None, seen=()):
         if s["k"] == "imp" and s["pos"] == "fmtExpr":
             g = got.get((f, i), s["tgt"])
             kids.append(B.fmt_leaf(lay, g) if g else None)
-        elif s["k"] == "imp" and s["pos"] != "failMsg":
+        elif s["k"] == "imp" and s["pos"] not in ("failMsg", "conAnn"):
             g = got.get((f, i), s["tgt"])
             kids.append(tree_with(lay, g, got, None, seen + (f,)) if g and g not in seen + (f,) else None)
-        elif s["k"] == "inc" and s["pos"] != "failMsg":
+        elif s["k"] == "inc" and s["pos"] not in ("failMsg", "conAnn"):
             g = got.get((f, i), s["tgt"])
             incs.append("DATA:" + lay.ident(g) if g else None)
     t = {"name": lay.ident(f), "kids": kids, "incs": incs}
@@ -247,7 +247,7 @@ def main(tier, replay=None):
     cnt = {"cycle -> diagnostic": 0, "build ok": 0, "same file imported twice": 0, "import through an import": 0,
            "include": 0, "cwd p": 0, "cwd p/s": 0, "cwd elsewhere": 0, "entry in the sub-directory": 0,
            "same name in two directories": 0}
-    for pos in ("top", "nested", "funcBody", "callback", "failMsg", "moduleBody", "moduleOut", "fmtExpr"):
+    for pos in ("top", "nested", "funcBody", "callback", "failMsg", "moduleBody", "moduleOut", "fmtExpr", "conAnn"):
         cnt["position " + pos] = 0
     for sp in (1, 2, 3):
         cnt["spelling %d" % sp] = 0
